@@ -99,6 +99,21 @@ Theorem C14_split_index_map : forall (t : list (list nat)) (nt : nat) (r k : nat
 Proof. exact gen_split_index_map. Qed.
 Print Assumptions C14_split_index_map.
 
+(* two cooperating sites, both regenerated: the layout of the split connectivity built by to_meshtri / to_meshtet (simplex k
+   is block fst of cell snd) and the decoding of the simplex number in element_finder agree for ALL cell counts and ALL
+   simplex numbers, and the layout is the block layout for which the finder theorems above are stated *)
+Theorem C14_split_layout_decode_agree : forall nt k, (0 < nt)%nat ->
+    ((k < 2 * nt)%nat -> snd (gen_quad_layout nt k) = gen_quad_decode nt k /\ (fst (gen_quad_layout nt k) < 2)%nat) /\
+    ((k < 6 * nt)%nat -> snd (gen_hex_layout nt k) = gen_hex_decode nt k /\ (fst (gen_hex_layout nt k) < 6)%nat) /\
+    ((k < 3 * nt)%nat -> snd (gen_wedge_layout nt k) = gen_wedge_decode nt k /\ (fst (gen_wedge_layout nt k) < 3)%nat) /\
+    gen_quad_layout nt k = ((k / nt)%nat, (k mod nt)%nat) /\ gen_hex_layout nt k = ((k / nt)%nat, (k mod nt)%nat) /\
+    gen_wedge_layout nt k = ((k / nt)%nat, (k mod nt)%nat).
+Proof.
+  intros nt k Hnt. split; [intros; now apply quad_layout_decode_agree|]. split; [intros; now apply hex_layout_decode_agree|].
+  split; [intros; now apply wedge_layout_decode_agree | exact (split_layouts_are_block_layouts nt k)].
+Qed.
+Print Assumptions C14_split_layout_decode_agree.
+
 (* finite certificates on the reference cells (exhaustive over the regenerated tables): the split simplices use only
    vertices of the cell, are non-degenerate, their volumes add up to the cell's (sum |det| = d! * |cell|), and every
    two of them are separated by a checked linear functional (so they share boundary points only:
